@@ -136,6 +136,36 @@ Theorem crop_after_extend_nd :
 Proof. exact sep_crop_extend. Qed.
 Print Assumptions crop_after_extend_nd.
 
+(* T1 (N-d, restricted axes): when at most one axis is resized (any position, any
+   number of untouched axes around it) the axis order is immaterial, so both theorems
+   hold for the code's own order (axis 0 first) in both directions. *)
+Theorem resize_adjoint_nd_single_axis :
+  forall (m : pmode) (outer : nat) (ishape oshape : list nat) (offs : list Z) (x y : list R),
+  config_ok m ishape oshape offs = true -> at_most_one ishape oshape offs = true ->
+  length x = (outer * prodn ishape)%nat -> length y = (outer * prodn oshape)%nat ->
+  dot (sep_loop m Forward 0 true outer ishape oshape offs x) y
+  = dot x (sep_loop m Adjoint 0 true outer oshape ishape offs y).
+Proof. exact sep_adjoint_single_axis. Qed.
+Print Assumptions resize_adjoint_nd_single_axis.
+
+Theorem crop_after_extend_nd_single_axis :
+  forall (m m' : pmode) (outer : nat) (ishape oshape : list nat) (offs : list Z) (x : list R),
+  config_ok m ishape oshape offs = true -> all_grow ishape oshape = true ->
+  at_most_one ishape oshape offs = true ->
+  length x = (outer * prodn ishape)%nat ->
+  sep_loop m' Forward 0 true outer oshape ishape offs
+    (sep_loop m Forward 0 true outer ishape oshape offs x) = x.
+Proof. exact sep_crop_extend_single_axis. Qed.
+Print Assumptions crop_after_extend_nd_single_axis.
+
+(* T1: resize_array always returns an array of the requested length (any mode,
+   direction, offset -- legal or not -- whenever it does not raise). *)
+Theorem resize_result_length :
+  forall (m : pmode) (d : direction) (c : R) (cast : bool) (arr : list R) (n_out : nat) (off : Z) (r : list R),
+  resize1 m d c cast arr n_out off = Ok r -> length r = n_out.
+Proof. exact resize1_length. Qed.
+Print Assumptions resize_result_length.
+
 (* T1 (operator range, per axis).  [resize_axis fixed a n_new off bl br] is the
    range axis built by _resize_discr from the domain axis a (interval, cells,
    nodes_on_bdry flags); [num_lr] the numbers of cells added left/right;
@@ -226,3 +256,6 @@ Example config_ok_example :
   config_ok PSymmetric [3; 4; 2]%nat [5; 2; 2]%nat [1; 1; 0]%Z = true
   /\ config_ok POrder1 [2; 3]%nat [6; 3]%nat [3; 0]%Z && all_grow [2; 3]%nat [6; 3]%nat = true.
 Proof. split; vm_compute; reflexivity. Qed.
+Example at_most_one_example :
+  at_most_one [4; 3; 5]%nat [4; 7; 5]%nat [0; 2; 0]%Z && config_ok PPeriodic [4; 3; 5]%nat [4; 7; 5]%nat [0; 2; 0]%Z = true.
+Proof. vm_compute; reflexivity. Qed.
